@@ -18,6 +18,11 @@ is a statement about *all* iteration orders. It is decided as follows.
    message tie-break is what makes the order total (two diagnostics at one position with different
    texts), see the seeded change `C12-diagnostics-sorted-without-message-tiebreak`.
 
+4. `regeneration_touches_nothing`, `file_written_iff_different`: the output directory under `WriteFileIfNeeded`
+   (`YardlModel/Determinism.lean`): a second run over unchanged input writes no file. `checks/c12.py` drives the
+   real `iocommon.WriteFileIfNeeded` in-process at sizes around every power-of-two block boundary against
+   `Det.writeIfNeeded`.
+
 The syntactic classification is trusted (stated in DESIGN.md); `checks/c12.py` runs the real CLI
 repeatedly on packages built to put ≥ 3 entries into every listed map and diffs all outputs, and
 checks that regenerating an unchanged package leaves every file untouched.
@@ -59,5 +64,30 @@ theorem no_tiebreak_is_ambiguous :
 example : Sorted [⟨1, some 3, some 5, 10⟩, ⟨1, some 3, some 5, 11⟩, ⟨2, none, none, 0⟩] := by
   simp [Sorted, less]
 example : Wf ⟨1, some 3, some 5, 10⟩ := by simp [Wf]
+
+/-! ### idempotence: every generator writes through `WriteFileIfNeeded` -/
+
+/-- regenerating an unchanged package (the generators emit the same files with the same contents, each path once):
+    no file is written the second time and the output tree is what the first run left, whatever was in the
+    output directory before the first run -/
+theorem regeneration_touches_nothing (files : List (Nat × List UInt8)) (fs : Fs) (hd : pathsDistinct files = true) :
+    generate files (generate files fs).1 = ((generate files fs).1, []) :=
+  second_run_touches_nothing files fs hd
+
+/-- a file is written exactly when it is missing or holds other bytes (any length, any position of the difference) -/
+theorem file_written_iff_different (fs : Fs) (f : Nat × List UInt8) :
+    (writeIfNeeded (fs, []) f).2 = (if fs.get f.1 = some f.2 then [] else [f.1]) :=
+  touched_iff_different fs f
+
+/-- after a run every emitted file holds the emitted bytes -/
+theorem generated_files_hold_their_content (files : List (Nat × List UInt8)) (fs : Fs) (hd : pathsDistinct files = true) :
+    ∀ f ∈ files, (generate files fs).1.get f.1 = some f.2 :=
+  fun f hf => foldl_content files (fs, []) hd f hf
+
+/-- the hypothesis matters: a path emitted twice with different contents is rewritten on every run -/
+example : (generate [(1, [1]), (1, [2])] (generate [(1, [1]), (1, [2])] []).1).2 ≠ [] := by decide
+
+example : pathsDistinct [(1, [1, 2]), (2, []), (3, [9])] = true := by decide
+
 
 end Yardl.C12
